@@ -6,6 +6,10 @@ import json, os, subprocess, sys, shutil
 V = os.path.dirname(os.path.dirname(os.path.abspath(__file__)))
 def sh(*a, **k): return subprocess.run(a, capture_output=True, text=True, **k)
 args = sys.argv[1:]
+json_out = None
+if "--json" in args:
+    i = args.index("--json"); json_out = args[i + 1]; args = args[:i] + args[i + 2:]
+status = {}
 props = ["C%02d" % i for i in range(1, 20)]
 if args and args[0] == "-p":
     props = args[1].split(","); args = args[2:]
@@ -24,6 +28,7 @@ for p in args:
     bad = []
     for c in props:
         r = sh(os.path.join(V, "check"), c, "--repo", tree, "--no-evidence", cwd=V)
+        status.setdefault(os.path.basename(p.rstrip("/")), {})[c] = r.returncode
         if r.returncode != 0:
             lines = [l for l in (r.stdout + r.stderr).splitlines() if l.startswith("  violation") or l.startswith("CHECKER") or "Error" in l or "Traceback" in l]
             bad.append((c, r.returncode, lines))
@@ -32,4 +37,6 @@ for p in args:
         rc = 1
         print("  %s exit %d" % (c, code))
         for l in lines[:12]: print("     ", l.strip()[:260])
+if json_out:
+    json.dump(status, open(json_out, "w"), indent=1)
 sys.exit(rc)
